@@ -166,6 +166,19 @@ class Ctx(object):
             return arith('*', n, body)
         return wrap(make_sum(to_z3(n, 'int'), j, body.t, opaque=opaque))
 
+    def Min(self, A):
+        return self._extremum(A, 'min')
+
+    def Max(self, A):
+        return self._extremum(A, 'max')
+
+    def _extremum(self, A, which):
+        j = fresh_int('j')
+        body = A[Sc(j)]
+        if not isinstance(body, Sc):
+            return body
+        return wrap(sym.EXTREMA.atom(to_z3(A.n, 'int'), j, body.t, which))
+
     implies = staticmethod(implies)
     ite = staticmethod(ite)
 
